@@ -31,7 +31,7 @@ func R25(p *core.Prog) *core.Result {
 				continue
 			}
 			rn := namedOf(f.Signature.Recv().Type())
-			if rn == nil || (rn.Obj().Name() != "Parser" && rn.Obj().Name() != "Decoder") {
+			if rn == nil || (core.TypeName(rn) != "Parser" && core.TypeName(rn) != "Decoder") {
 				continue
 			}
 			for _, b := range f.Blocks {
